@@ -1,5 +1,6 @@
 import Pymc.Proofs.C01Examples
 import Pymc.Proofs.ServerAnswersCall
+import Pymc.Proofs.PooledCallExamples
 /-!
 # C01 — no reply is ever read by the wrong call
 
@@ -31,7 +32,11 @@ The argument is the invariant *at a call boundary an open socket has nothing unr
 8. with C02 (the strict parser reads the bytes of a call as the requests the call means) the assumption
    becomes a theorem for that server: its answer to the bytes of a call is exactly what `owed` says
    (`C01_reference_server_answers_what_is_owed`), hence `Client.onServer` never leaves anything unread
-   (`C01_onServer_pipe_clean`).
+   (`C01_onServer_pipe_clean`);
+9. the same for `PooledClient`: model `Pymc/Model/PooledCall.lean`, in which every public call of the wrapper is the pool
+   bracket (`get`, then `release` or `destroy`) around a real `Client.call` on the checked-out inner client.  The
+   invariant becomes *every idle pooled client with an open socket has nothing unread in its pipe*
+   (`C01_pooled_sequence_clean`, `C01_pooled_own_bytes_only`, and the `…_faults` variants).
 
 No bound on lengths, number of keys or chunking anywhere.
 -/
@@ -688,5 +693,153 @@ theorem C01_onServer_pipe_clean (cfg : Cfg) (c : Call) (hside : ServerAnswers.Si
   simp only [Client.onServer, hsent, hfeed]
   simp only [Bool.and_eq_true, decide_eq_true_eq]
   exact ⟨hopen, hu⟩
+
+/-! ## 9. `PooledClient`: the pool bracket around every call
+
+Model: `Pymc/Model/PooledCall.lean`.  A history is a list of `(call, script, checkout time, release time)`;
+`runP ccfg pcfg ignoreExc {} 0 calls` runs it on a fresh `PooledClient` whose inner clients are configured by
+`ccfg`, whose pool is configured by `pcfg` (`max_pool_size`, `pool_idle_timeout`) and whose own `ignore_exc` is
+`ignoreExc`; it returns the final pool state and one observation per call.  `ob.step`, when the pool could hand out
+a client, is the inner `Client.call` (with `ignore_exc=False`) on that client: `recv()` results tagged with the
+number of the pooled call during which they arrive, exactly one step of `Framing.runTaggedFrom`
+(`PooledCall.runTaggedFrom_single`).  Which inner client serves a call, whether it reconnects, and whether it goes back
+to the pool or is destroyed is decided by the pool (idle expiry, `release`, `destroy`) — see C09. -/
+section pooled
+open PooledCall
+
+/-- C01 (`PooledClient`, the step is the inner call): the step observed for pooled call `i` is `Client.call` for the
+`i`-th call of the history on some inner client (socket state `so`, pipe `left`), with that call's `recv()`
+results tagged `i`; the method returns what the inner call returned or raised — except that a read method of a
+`PooledClient(ignore_exc=True)` returns the miss value when the inner call raised an `Exception` other than
+`MemcacheIllegalInputError`. -/
+theorem C01_pooled_step_is_client_call (ccfg : Cfg) (pcfg : Pooled.Cfg) (ignoreExc : Bool) (calls : List PCall) :
+    ∀ (i : Nat) (ob : PObs), (runP ccfg pcfg ignoreExc {} 0 calls).2[i]? = some ob →
+      ∃ c sc now fin, calls[i]? = some (c, sc, now, fin) ∧
+        ∀ st, ob.step = some st →
+          (∃ so left,
+            st.idx = i ∧ st.avail = available so left (sc.evs.map fun e => (i, e)) ∧
+            st.out = Client.call ccfg false so c { sc with evs := st.avail.map (·.2) }) ∧
+          (ob.res = some st.out.res ∨
+            ∃ e, st.out.res = .error e ∧ swallows ignoreExc c e = true ∧ ob.res = some (.ok (missRes c))) := by
+  intro i ob hi
+  obtain ⟨c, sc, now, fin, hc, h⟩ := runP_steps ccfg pcfg ignoreExc {} 0 calls i ob hi
+  refine ⟨c, sc, now, fin, hc, fun st hst => ?_⟩
+  obtain ⟨⟨so, left, hs⟩, hres, -⟩ := h st hst
+  rw [Nat.zero_add] at hs
+  subst hs
+  exact ⟨⟨so, left, rfl, rfl, rfl⟩, hres⟩
+
+/-- C01 (`PooledClient`, sequences): run any history on a fresh `PooledClient`.  If what arrives during each call is
+well-framed for that call, then after every call (`calls.take n` = the first `n` calls) no client is checked out
+and every inner client idle in the pool with an open socket has no byte unread in its pipe — whatever the pool
+did in between (reuse, idle expiry, swallowed failures under `ignore_exc`, destroyed clients, `quit`). -/
+theorem C01_pooled_sequence_clean (ccfg : Cfg) (pcfg : Pooled.Cfg) (ignoreExc : Bool) (calls : List PCall)
+    (hwf : ∀ pc ∈ calls, WellFramed ccfg pc.1 pc.2.1.evs) (n : Nat) :
+    (runP ccfg pcfg ignoreExc {} 0 (calls.take n)).1.used = [] ∧
+    ∀ cl ∈ (runP ccfg pcfg ignoreExc {} 0 (calls.take n)).1.free, cl.sockOpen = true →
+      joinData (cl.pipe.map (·.2)) = [] ∧ clean (cl.pipe.map (·.2)) := by
+  refine ⟨used_nil_of_proj ?_, fun cl hcl hopen => ?_⟩
+  · rw [(runP_proj ccfg pcfg ignoreExc {} 0 (calls.take n) coh_init).1]
+    exact (Pooled.inv_runT _ Pooled.inv_init).used_nil
+  · have h := (runP_clean ccfg pcfg ignoreExc {} 0 (calls.take n) pipesClean_init
+      (fun pc hpc => hwf pc (List.mem_of_mem_take hpc))).1 cl hcl hopen
+    have hd : Drained (cl.pipe.map (·.2)) := by
+      rw [drained_iff_all_eintr]
+      intro e he
+      obtain ⟨te, hte, rfl⟩ := List.mem_map.mp he
+      exact h te hte
+    exact hd
+
+/-- the five-call history `PooledCallExamples.demoCalls` satisfies the hypothesis, and its run shows the cases the
+theorem covers: a swallowed failure (client 0 kept, reconnects), a propagated failure (client 0 destroyed, call 4 is
+served by the new client 1), and in the end client 1 idle with connection 2 open and an empty pipe -/
+example :
+    (∀ pc ∈ PooledCallExamples.demoCalls, WellFramed {} pc.1 pc.2.1.evs) ∧
+    PooledCallExamples.obsSummary (runP {} ⟨1, 0⟩ true {} 0 PooledCallExamples.demoCalls) =
+      [(some 0, some 0, some 0, true, some true),
+       (some 0, some 0, none, false, some true),
+       (some 0, some 1, some 1, true, some true),
+       (some 0, some 1, none, false, some false),
+       (some 1, some 2, some 2, true, some true)] ∧
+    PooledCallExamples.poolSummary (runP {} ⟨1, 0⟩ true {} 0 PooledCallExamples.demoCalls) =
+      ([(1, some 2, true, 0)], [0, 1], 0) :=
+  ⟨PooledCallExamples.demoCalls_wf, PooledCallExamples.demo_ignoreExc.1, PooledCallExamples.demo_ignoreExc.2.1⟩
+
+/-- C01 (`PooledClient`, own bytes only): under the same hypothesis, everything pooled call number `i` can see on the
+socket of the inner client that serves it — a fortiori everything it consumes — carries tag `i`, except possibly
+interrupted `recv()` attempts (`eintr`), which carry no bytes (see `C01_own_bytes_only_eintr_counterexample`).  So
+no `PooledClient` call ever reads a byte that answers an earlier call, on whichever pooled connection it runs. -/
+theorem C01_pooled_own_bytes_only (ccfg : Cfg) (pcfg : Pooled.Cfg) (ignoreExc : Bool) (calls : List PCall)
+    (hwf : ∀ pc ∈ calls, WellFramed ccfg pc.1 pc.2.1.evs) :
+    ∀ (i : Nat) (ob : PObs), (runP ccfg pcfg ignoreExc {} 0 calls).2[i]? = some ob → ∀ st, ob.step = some st →
+      st.idx = i ∧
+      st.consumed ++ st.leftover = st.avail ∧
+      st.leftover.map (·.2) = st.out.unread ∧
+      (∀ te ∈ st.avail, te.1 = i ∨ te.2 = .eintr) ∧
+      (∀ te ∈ st.consumed, te.1 = i ∨ te.2 = .eintr) := by
+  intro i ob hi st hst
+  obtain ⟨hidx, h⟩ := (runP_clean ccfg pcfg ignoreExc {} 0 calls pipesClean_init hwf).2 i ob hi st hst
+  rw [Nat.zero_add] at hidx
+  have hown : ∀ te ∈ st.avail, te.1 = i ∨ te.2 = .eintr := fun te hte => hidx ▸ h.own te hte
+  refine ⟨hidx, h.split, h.left, hown, fun te hte => hown te ?_⟩
+  rw [← h.split]; exact List.mem_append_left _ hte
+
+/-- in the run of `PooledCallExamples.demoCalls` every call consumes exactly its own `recv()` results (per call: index,
+tags of the consumed results, number of results left) -/
+example :
+    PooledCallExamples.stepSummary (runP {} ⟨1, 0⟩ true {} 0 PooledCallExamples.demoCalls) =
+      [some (0, [0], 0), some (1, [1], 0), some (2, [2, 2], 0), some (3, [3], 0), some (4, [4], 0)] :=
+  PooledCallExamples.demo_ignoreExc.2.2.1
+
+/-- C01 (`PooledClient`, no foreign bytes): every `recv()` result that carries data and is consumed by pooled call
+`i` carries tag `i`. -/
+theorem C01_pooled_no_foreign_bytes (ccfg : Cfg) (pcfg : Pooled.Cfg) (ignoreExc : Bool) (calls : List PCall)
+    (hwf : ∀ pc ∈ calls, WellFramed ccfg pc.1 pc.2.1.evs) :
+    ∀ (i : Nat) (ob : PObs), (runP ccfg pcfg ignoreExc {} 0 calls).2[i]? = some ob → ∀ st, ob.step = some st →
+      ∀ te ∈ st.consumed, ∀ b, te.2 = .data b → te.1 = i := by
+  intro i ob hi st hst te hte b hb
+  rcases (C01_pooled_own_bytes_only ccfg pcfg ignoreExc calls hwf i ob hi st hst).2.2.2.2 te hte with h | h
+  · exact h
+  · rw [hb] at h; cases h
+
+/-- C01 (`PooledClient`, sequences, broken connections): if what arrives during each call is `FaultFramed` for that
+call (the owed units, or a strict prefix of them cut at any byte by end-of-stream or an exception), then after
+every call no byte is readable, before a fault, from the pipe of any idle pooled client with an open socket. -/
+theorem C01_pooled_sequence_clean_faults (ccfg : Cfg) (pcfg : Pooled.Cfg) (ignoreExc : Bool) (calls : List PCall)
+    (hff : ∀ pc ∈ calls, FaultFramed ccfg pc.1 pc.2.1.evs) (n : Nat) :
+    ∀ cl ∈ (runP ccfg pcfg ignoreExc {} 0 (calls.take n)).1.free, cl.sockOpen = true →
+      quiet (cl.pipe.map (·.2)) :=
+  (runP_quiet ccfg pcfg ignoreExc {} 0 (calls.take n) pipesQuiet_init
+    (fun pc hpc => hff pc (List.mem_of_mem_take hpc))).1
+
+/-- C01 (`PooledClient`, own bytes only, broken connections): everything pooled call `i` can possibly receive — the
+pipe content of its inner client up to the first fault — carries tag `i` or is an interrupted attempt without
+bytes; and a call whose inner client keeps its socket has consumed only such events. -/
+theorem C01_pooled_own_bytes_only_faults (ccfg : Cfg) (pcfg : Pooled.Cfg) (ignoreExc : Bool) (calls : List PCall)
+    (hff : ∀ pc ∈ calls, FaultFramed ccfg pc.1 pc.2.1.evs) :
+    ∀ (i : Nat) (ob : PObs), (runP ccfg pcfg ignoreExc {} 0 calls).2[i]? = some ob → ∀ st, ob.step = some st →
+      st.idx = i ∧
+      st.consumed ++ st.leftover = st.avail ∧
+      st.leftover.map (·.2) = st.out.unread ∧
+      (∀ te ∈ readable st.avail, te.1 = i ∨ te.2 = .eintr) ∧
+      (st.out.sockOpen = true → ∀ te ∈ st.consumed, te.1 = i ∨ te.2 = .eintr) := by
+  intro i ob hi st hst
+  obtain ⟨hidx, h⟩ := (runP_quiet ccfg pcfg ignoreExc {} 0 calls pipesQuiet_init hff).2 i ob hi st hst
+  rw [Nat.zero_add] at hidx
+  have hown : ∀ te ∈ readable st.avail, te.1 = i ∨ te.2 = .eintr := fun te hte => hidx ▸ h.own te hte
+  exact ⟨hidx, h.split, h.left, hown, fun ho te hte => hown te (h.taken ho te hte)⟩
+
+/-- a history over a breaking connection (`PooledCallExamples.faultCalls`: a send failure swallowed under `ignore_exc`, a
+reply cut by a timeout with junk arriving later, a `get_many([])` that touches nothing): every script is
+`FaultFramed`; call 4, served by a new client on a new connection, never sees the junk of call 2 -/
+example :
+    (∀ pc ∈ PooledCallExamples.faultCalls, FaultFramed {} pc.1 pc.2.1.evs) ∧
+    PooledCallExamples.stepSummary (runP {} ⟨1, 0⟩ true {} 0 PooledCallExamples.faultCalls) =
+      [some (0, [0], 1), some (1, [], 1), some (2, [2, 2, 2], 0), some (3, [], 0), some (4, [4], 0)] ∧
+    PooledCallExamples.poolSummary (runP {} ⟨1, 0⟩ true {} 0 PooledCallExamples.faultCalls) =
+      ([(1, some 2, true, 0)], [0, 1], 0) :=
+  ⟨PooledCallExamples.faultCalls_ff, PooledCallExamples.demo_faults.2.2.1, PooledCallExamples.demo_faults.2.1⟩
+
+end pooled
 
 end C01
